@@ -376,6 +376,29 @@ def r_retstop(A, ctx, scope, rule="R-RETSTOP"):
             ctx.ob(rule, f"{sf.f.fq}::{norm_src(cmp)}", stop == sf.STOP,
                    what=f"returns `{norm_src(sf.ret_stop)}` but tests `{stop}`",
                    loc=loc(sf.f, cmp))
+        # every definition of the returned value inside the budget loop is one that the
+        # tolerance test sees: a definition that goes straight to `return` hands back a
+        # value that never went through the certificate (e.g. an inner-loop criterion)
+        if sf.STOP and sf.tol_exits:
+            cfg = sf.cfg
+            rd = cfg.reaching_defs()
+            seen_by_test = set()
+            for test_id, brk_id, cmp in sf.tol_exits:
+                seen_by_test |= set(rd.get(test_id, {}).get(sf.STOP, ()))
+                stop_nm = sf.stop_name_in(cmp)
+                if stop_nm:
+                    seen_by_test |= set(_stop_chain(sf, test_id, stop_nm))
+                    seen_by_test |= set(cfg.backward_slice(test_id, [stop_nm]))
+            for nd in cfg.stmts():
+                a = nd.ast
+                if nd.kind == "stmt" and isinstance(a, ast.Assign) and any(
+                        isinstance(t, ast.Name) and t.id == sf.STOP for t in a.targets) and nd.loops:
+                    n += 1
+                    ctx.ob(rule, f"{sf.f.fq}::def::{norm_src(a)[:60]}", nd.id in seen_by_test,
+                           what=f"`{norm_src(a)[:60]}` sets the returned stopping value on a path that "
+                                "never reaches the outer tolerance test: the value handed back is not the "
+                                "certificate (full-gradient score joined with the intercept term) of the "
+                                "returned point", loc=loc(sf.f, a))
     ctx.floor(rule, n, scope.get("floor", 1))
 
 
